@@ -217,6 +217,21 @@ class LineReach:
             pass
         self.on = False
 
+    def branch_hit(self, fn, marker):
+        """True/False: was any statement line of `fn` whose source contains `marker` executed?  None if the marker
+        does not occur in the source any more (then nothing can be required of it)."""
+        import inspect
+        f = getattr(fn, '__wrapped__', fn)
+        try:
+            src, start = inspect.getsourcelines(f)
+        except (OSError, TypeError):
+            return None
+        lab = self.codes.get(f.__code__)
+        want = [start + i for i, l in enumerate(src) if marker in l]
+        if not want or lab is None:
+            return None
+        return any((lab, l) in self.hit for l in want)
+
     def lines(self, label):
         return sorted(l for (lab, l) in self.hit if lab == label)
 
@@ -463,3 +478,35 @@ class deadline:
         signal.alarm(0)
         signal.signal(signal.SIGALRM, self.old)
         return False
+
+
+# --------------------------------------------------------------------------------------------
+# ambient workload: the repository's own tests executed with the monitors attached
+# --------------------------------------------------------------------------------------------
+def run_repo_tests(ns, files, ctx, label='ambient'):
+    """Runs unittest-style test files of the tree under test in this interpreter (monitors stay attached).
+    Test failures are recorded as evidence only: the suite's own assertions are not this harness's verdict."""
+    import unittest
+    import importlib.util
+    import io
+    ran = failed = 0
+    for rel in files:
+        path = os.path.join(ns.root, rel)
+        if not os.path.exists(path):
+            continue
+        name = 'ambient_' + os.path.splitext(os.path.basename(rel))[0]
+        spec = importlib.util.spec_from_file_location(name, path)
+        mod = importlib.util.module_from_spec(spec)
+        cwd = os.getcwd()
+        try:
+            os.chdir(os.path.dirname(path))
+            spec.loader.exec_module(mod)
+            suite = unittest.defaultTestLoader.loadTestsFromModule(mod)
+            res = unittest.TextTestRunner(stream=io.StringIO(), verbosity=0).run(suite)
+            ran += res.testsRun
+            failed += len(res.failures) + len(res.errors)
+        finally:
+            os.chdir(cwd)
+    ctx.count(label + '_tests_run', ran)
+    ctx.count(label + '_tests_failed_or_errored', failed)
+    return ran, failed
